@@ -7,7 +7,7 @@ From Coq Require Import Reals List Bool ZArith.
 From PyrexLib Require Import RealPrims.
 From PyrexModel Require Import GeneratorModel.
 From PyrexGen Require Import Gen_generation.
-From PyrexProofs Require Import C13_proofs.
+From PyrexProofs Require Import C13_proofs C13_closed_proofs.
 Import ListNotations.
 Open Scope R_scope.
 
@@ -106,6 +106,30 @@ Theorem exit_points_box_sound : forall dx dy dz v d en ex,
   good_point dx dy dz v d true en /\ good_point dx dy dz v d false ex.
 Proof. exact exit_points_box_sound_lemma. Qed.
 Print Assumptions exit_points_box_sound.
+
+(* the same on the CLOSED box: a vertex on a face, an edge or a corner (np.random.uniform includes the
+   lower faces; an interaction at the surface z = 0) and a non-zero direction still yield two points on
+   the boundary and on the line of flight, with the vertex weakly between them (s <= 0 <= t) ... *)
+Theorem exit_points_box_closed : forall dx dy dz v d,
+  box_closed dx dy dz v -> (exists k, (k < 3)%nat /\ vnth d k <> 0) ->
+  exists en ex, box_exit_points dx dy dz v d = Some (en, ex) /\
+                good_point_c dx dy dz v d true en /\ good_point_c dx dy dz v d false ex.
+Proof. exact exit_points_box_closed_lemma. Qed.
+Print Assumptions exit_points_box_closed.
+
+(* ... and when the direction crosses the face the vertex lies on, the vertex itself is the exit
+   point (direction leaving the box there) or the entry point (direction entering there) *)
+Theorem boundary_vertex_is_exit_or_entry : forall dx dy dz v d p c, (c < 3)%nat ->
+  (good_point_c dx dy dz v d false p ->
+   (vnth v c = hi_side dx dy dz c /\ 0 < vnth d c) \/ (vnth v c = lo_side dx dy dz c /\ vnth d c < 0) -> p = v) /\
+  (good_point_c dx dy dz v d true p ->
+   (vnth v c = hi_side dx dy dz c /\ vnth d c < 0) \/ (vnth v c = lo_side dx dy dz c /\ 0 < vnth d c) -> p = v).
+Proof.
+  intros dx dy dz v d p c Hc. split; intros G H.
+  - apply (vertex_is_exit_lemma dx dy dz v d p c Hc G H).
+  - apply (vertex_is_entry_lemma dx dy dz v d p c Hc G H).
+Qed.
+Print Assumptions boundary_vertex_is_exit_or_entry.
 
 (* cylinder, side wall, generic branch d_x <> 0: both candidate points lie on the circle and on the
    line of flight, in order of x *)
